@@ -101,6 +101,22 @@ def gen_case(rng, default_cap):
                 max_matches=max_matches, path=path, cap=default_cap)
 
 
+def par_model(kind, lines, threads=8):
+    """vlib.model on few but heavy cases: one driver process per case group"""
+    if len(lines) <= 1:
+        return vlib.model(kind, lines)
+    from concurrent.futures import ThreadPoolExecutor
+    k = min(threads, len(lines))
+    groups = [lines[i::k] for i in range(k)]
+    with ThreadPoolExecutor(max_workers=k) as ex:
+        outs = list(ex.map(lambda g: vlib.model(kind, g), groups))
+    res = [None] * len(lines)
+    for i, o in enumerate(outs):
+        for j, x in enumerate(o):
+            res[i + j * k] = x
+    return res
+
+
 def hist_val(h):
     return vlist(["()" if op == "E" else str(op) for op in h])
 
@@ -141,10 +157,10 @@ def ref_grep(c):
     return out
 
 
-def check_lib_cases(ctx, cases, stats):
+def check_lib_cases(ctx, cases, stats, heavy=False):
     lc = [case_lines(c) for c in cases]
     co = vlib.code(1401, [a for a, _ in lc])
-    mo = vlib.model(1401, [b for _, b in lc])
+    mo = (par_model if heavy else vlib.model)(1401, [b for _, b in lc])
     for c, (cl, ml), cout, mout in zip(cases, lc, co, mo):
         if cout in ("PANIC", "MISSING") or cout.startswith("PARSEFAIL"):
             ctx.violation("harness %s on a search case (debug assertion / overflow in the searcher?)" % cout,
@@ -361,17 +377,43 @@ OUTMODES = ["std", "std", "count", "lwm", "lwo", "passthru", "A1", "B1", "C2", "
 MODELLED = {"std": 2, "count": 3, "lwm": 4, "lwo": 5, "passthru": 2}
 
 
-def cli_round(ctx, rng, cap, stats, big_ok):
+def straddle_files(cap):
+    """shapes around the end of the sniffed prefix (offset cap) and around read boundaries:
+    s*: short NUL-free lines, then ONE long matching line that starts before cap, has its needle before cap and
+        the file's first NUL after cap (with / without further lines, NUL right at cap+1 or well after);
+    al*: 64-byte lines so that a line boundary, the end of the first full buffer and the NUL coincide at cap"""
+    res = {}
+    pad = lambda n: b"x" * n
+    # long lines, one in eight matching: keeps the unary-arithmetic model fast
+    short = (b"".join((b"x a" if i % 8 == 0 else b"bb ") + pad(250) + b"\n" for i in range(cap // 254 + 2)))
+    head = short[:cap - 40]
+    head = head[:head.rfind(b"\n") + 1]
+    for name, nul_at, tail in (("s0", cap + 4, b""), ("s1", cap + 1, b"b\na\n"), ("s2", cap + 300, b"a tail\n"),
+                               ("s3", cap, b"a\n")):
+        line = b"ab " + pad(cap - len(head) - 3 + (nul_at - cap)) + b"\x00" + pad(5) + b"\n"
+        assert len(head) + 3 < cap and len(head) + len(line) > cap and (head + line).find(b"\x00") == nul_at
+        res["t/" + name] = head + line + tail
+    row = b"a" + pad(62) + b"\n"
+    for name, extra in (("al0", b"\x00"), ("al1", b"\x00a\n"), ("al2", b"a\x00\n"), ("al3", row + b"\x00")):
+        res["t/" + name] = row * (cap // 64) + extra
+    return res
+
+
+def cli_round(ctx, rng, cap, stats, big_ok, fixed=None, invocations=None):
     d = tempfile.mkdtemp(dir=vlib.CACHE, prefix="c14-")
     try:
         os.mkdir(os.path.join(d, "t"))
         files = {}
-        for i in range(rng.randint(2, 5)):
-            name = "t/f%d" % i
-            files[name] = gen_file(rng, cap, big_ok and i < 1) if not (big_ok and i == 0) else gen_file_big(rng, cap)
+        if fixed is not None:
+            files = dict(fixed)
+        else:
+            for i in range(rng.randint(2, 5)):
+                name = "t/f%d" % i
+                files[name] = gen_file(rng, cap, big_ok and i < 1) if not (big_ok and i == 0) else gen_file_big(rng, cap)
+        for name in files:
             open(os.path.join(d, name), "wb").write(files[name])
         names = sorted(files)
-        for it in range(6):
+        for it in range(len(invocations) if invocations else 6):
             flag = rng.choice([0, 0, 1, 2])
             explicit = rng.random() < 0.5
             mm = rng.random() < 0.5
@@ -381,6 +423,9 @@ def cli_round(ctx, rng, cap, stats, big_ok):
             if big_ok and it < 3:
                 # a traversed / named big file in plain standard mode, both strategies
                 flag, explicit, mm, om, invert, stdin_name = 0, it == 2, it == 1, "std", False, None
+            if invocations:
+                flag, explicit, mm, om = invocations[it]
+                invert, stdin_name = False, None
             args = ["-F", "-e", "a", "-e", "ab", "-N", "--no-heading", "-H", "--sort", "path",
                     "--mmap" if mm else "--no-mmap"]
             if flag == 1:
@@ -426,7 +471,7 @@ def cli_round(ctx, rng, cap, stats, big_ok):
             # ---- model prediction, file by file
             common = dict(mode=mode, b=b, needles=NEEDLES, invert=invert, passthru=(om == "passthru"))
             cases = [predict_file(common, files[n], p, mm and not stdin_name, cap, stdin=bool(stdin_name)) for n, p in targets]
-            mouts = vlib.model(1401, [model_line(c) for c in cases], shards=4)
+            mouts = par_model(1401, [model_line(c) for c in cases])
             pred = b""
             ok = True
             for c, mo in zip(cases, mouts):
@@ -464,6 +509,9 @@ def cli_round(ctx, rng, cap, stats, big_ok):
                     if mode == 1:
                         if note or (warn and not printed) or (has_nul and printed and len(printed) < len(ref_clean) and not warn):
                             ctx.violation("quit mode: neither dropped nor cut off with a warning", w2)
+                        # the roll buffer examines every byte up to the NUL: lines printed => warning
+                        if has_nul and printed and not warn and c["strategy"] == 0:
+                            ctx.violation("quit mode (reader): lines were printed before the NUL but there is no warning", w2)
                         if warn:
                             stats["cli_warning"] += 1
                         if has_nul and not mine:
@@ -493,6 +541,19 @@ def corpus_cases(default_cap):
     return res
 
 
+def straddle_lib_cases(default_cap):
+    base = dict(b=0, capacity=default_cap, alloc=None, hist=[], needles=[b"ab"], invert=False, passthru=False, stop=None,
+                bin_reply=True, max_matches=None, path=b"p/f", cap=default_cap)
+    res = []
+    for name, content in sorted(straddle_files(default_cap).items()):
+        for mode in (1, 2):
+            for strategy in (1, 0):
+                c = dict(base)
+                c.update(stream=content, mode=mode, strategy=strategy)
+                res.append(c)
+    return res
+
+
 def run(ctx):
     from collections import Counter
     rng = ctx.rng
@@ -504,8 +565,15 @@ def run(ctx):
     ctx.cov["DEFAULT_BUFFER_CAPACITY"] = default_cap
     stats = Counter()
     check_lib_cases(ctx, corpus_cases(default_cap), stats)
+    check_lib_cases(ctx, straddle_lib_cases(default_cap), stats, heavy=True)
     cases = [gen_case(rng, default_cap) for _ in range(ctx.count(2500))]
     check_lib_cases(ctx, cases, stats)
+    # fixed shapes around offset DEFAULT_BUFFER_CAPACITY: every mode x strategy, plain / count / -U / context
+    inv = [(flag, explicit, mm, om) for flag in (0, 1) for explicit in (False, True) for mm in (True, False)
+           for om in ("std",)] + [(0, False, True, "multiline"), (0, True, True, "multiline"), (1, False, True, "multiline"),
+                                  (0, False, True, "C2"), (0, True, True, "A1"), (0, False, True, "count"),
+                                  (0, True, True, "json"), (0, False, True, "only"), (0, True, False, "multiline")]
+    cli_round(ctx, rng, default_cap, stats, big_ok=False, fixed=straddle_files(default_cap), invocations=inv)
     for r in range(ctx.count(8)):
         cli_round(ctx, rng, default_cap, stats, big_ok=(r % 3 == 0))
     ctx.cov["library_branches"] = dict(stats)
